@@ -344,7 +344,7 @@ class _GeomComp:
                  42: _cell('3', rhos[2])}
         vols = OrderedDict()
         for k, (fl, pr) in enumerate(zip(flags, prov), start=1):
-            vols[k] = VolumeT4([k], [], idorigin=[(pr, 9), (pr, 1)] if pr else None, fictive=fl)
+            vols[k] = VolumeT4([k], [], idorigin=[(pr, 9), (3, 1)] if pr else None, fictive=fl)
         res = constructGeomCompT4(vols, cells)
         return {name: (g.volumeNumberMaterial, g.listVolumeId) for name, g in res.items()}
 
@@ -357,6 +357,37 @@ class _GeomComp:
             want.setdefault(names[pr if pr else k], []).append(k)
         yield 'groups', {n: v[1] for n, v in result.items()} == {n: ' '.join(map(str, ids)) for n, ids in want.items()}
         yield 'counts', all(v[0] == len(v[1].split()) for v in result.values())
+
+
+@contract(constructGeomCompT4, props=['C09', 'C08'], name='ConstructGeomCompT4.constructGeomCompT4[any-flags]')
+class _GeomCompP:
+    """The same statement with the `fictive` flags symbolic (every combination decided by the solver, per shape of the
+    provenance): a volume is listed iff it is not virtual, under the name of its owner (first provenance entry, else
+    its own number), once, and the count of every composition is the number of volumes it lists."""
+    def cases(S):
+        for prov in itertools.product((None, 41, 42), repeat=3):
+            for rhos in _RHO_SETS[:3]:
+                yield f'prov={prov}/rhos={rhos}', {'prov': prov, 'rhos': rhos,
+                                                   'flags': [S.bool(f'fictive{k}') for k in range(3)]}
+
+    def call(flags, prov, rhos):
+        cells = {1: _cell('3', rhos[0]), 2: _cell('3', rhos[1]), 3: _cell('0', None), 41: _cell('7', '0.05'),
+                 42: _cell('3', rhos[2])}
+        vols = OrderedDict()
+        for k, (fl, pr) in enumerate(zip(flags, prov), start=1):
+            vols[k] = VolumeT4([k], [], idorigin=[(pr, 9), (3, 1)] if pr else None, fictive=fl)
+        res = constructGeomCompT4(vols, cells)
+        return {name: (g.volumeNumberMaterial, g.listVolumeId.split()) for name, g in res.items()}
+
+    def ensures(result, flags, prov, rhos):
+        names = {1: '3_' + rhos[0], 2: '3_' + rhos[1], 3: '0', 41: '7_0.05', 42: '3_' + rhos[2]}
+        for k, (fl, pr) in enumerate(zip(flags, prov), start=1):
+            owner = names[pr if pr else k]
+            listed_by = [n for n, v in result.items() if str(k) in v[1]]
+            yield f'volume{k}:listed-iff-real-under-its-owner', iff(Not(fl), listed_by == [owner])
+            yield f'volume{k}:virtual-not-listed', implies(fl, listed_by == [])
+        for n, v in result.items():
+            yield f'count[{n}]', And(v[0] == len(v[1]), len(set(v[1])) == len(v[1]), len(v[1]) >= 1)
 
 
 _CC_RHOS = ['-1.0', '-2.5', '0.05', '-0.9982071', '-0.9982074']
@@ -519,7 +550,7 @@ class _WriteGeomComp:
                  42: _cell('3', rhos[2])}
         vols = OrderedDict()
         for k, (fl, pr) in enumerate(zip(flags, prov), start=1):
-            vols[k] = VolumeT4([k], [], idorigin=[(pr, 9), (pr, 1)] if pr else None, fictive=fl)
+            vols[k] = VolumeT4([k], [], idorigin=[(pr, 9), (3, 1)] if pr else None, fictive=fl)
         buf = io.StringIO()
         _WGC.writeT4GeomComp(vols, cells, buf)
         return buf.getvalue()
